@@ -66,6 +66,29 @@ theorem strip_lineterm_faithful (lk : LookFn) (h h' : Hir) (lt : LineTerm) (hay 
         exact ⟨⟨hm, hall 13 (Or.inl rfl)⟩, hall 10 (Or.inr rfl)⟩
     · cases hs
 
+/-- the same with the smart-constructor pass between the two CRLF passes (`norm` preserves meaning) -/
+theorem stripN_faithful (lk : LookFn) (norm : Hir → Hir)
+    (hnorm : ∀ h hay s e, Matches lk (norm h) hay s e ↔ Matches lk h hay s e)
+    (h h' : Hir) (lt : LineTerm) (hay : Bytes) (s e : Nat) (hs : stripN norm h lt = .ok h') :
+    Matches lk h' hay s e ↔ (Matches lk h hay s e ∧ ∀ t ∈ lt.bytes, t ∉ slice hay s e) := by
+  cases lt with
+  | byte b =>
+    simp only [stripN] at hs
+    rw [strip_faithful lk h h' b hay s e hs]
+    simp [LineTerm.bytes]
+  | crlf =>
+    simp only [stripN] at hs
+    split at hs
+    · rename_i h1 hs1
+      rw [strip_faithful lk (norm h1) h' 10 hay s e hs, hnorm, strip_faithful lk h h1 13 hay s e hs1]
+      simp only [LineTerm.bytes, List.mem_cons, List.not_mem_nil, or_false]
+      constructor
+      · rintro ⟨⟨hm, h13⟩, h10⟩
+        exact ⟨hm, fun t ht => by rcases ht with rfl | rfl <;> assumption⟩
+      · rintro ⟨hm, hall⟩
+        exact ⟨⟨hm, hall 13 (Or.inl rfl)⟩, hall 10 (Or.inr rfl)⟩
+    · cases hs
+
 theorem matches_wrap_congr {lk : LookFn} (cfg : Config) {h1 h2 : Hir} {hay : Bytes}
     (hc : ∀ s e, Matches lk h1 hay s e ↔ Matches lk h2 hay s e) (s e : Nat) :
     Matches lk (cfg.wrap h1) hay s e ↔ Matches lk (cfg.wrap h2) hay s e := by
@@ -115,7 +138,7 @@ theorem C01_regex_faithful (lk : LookFn) (cfg : Config) (pats : List Bytes) (tra
           split at hcfg
           · rename_i h' hstr
             cases hcfg
-            rw [strip_lineterm_faithful lk translated _ lt l s e hstr]
+            rw [stripN_faithful lk norm hnorm translated _ lt l s e hstr]
             constructor
             · exact fun h => h.1
             · intro hm
